@@ -38,6 +38,29 @@ fn clock() -> &'static Clock {
 /// only for measuring elapsed time between two reads, never as a timestamp to
 /// compare against another machine's clock.
 pub fn now_ms() -> u64 {
+    #[cfg(feature = "verif-hooks")]
+    if let Some(t) = verif_clock::get() {
+        return t;
+    }
     let c = clock();
     c.base_ms + c.anchor.elapsed().as_millis() as u64
+}
+
+/// Verification hook: thread-local virtual clock. When set, `now_ms()` returns
+/// the injected value on this thread instead of reading the process clock.
+#[cfg(feature = "verif-hooks")]
+pub mod verif_clock {
+    use std::cell::Cell;
+
+    thread_local! {
+        static OVERRIDE: Cell<Option<u64>> = const { Cell::new(None) };
+    }
+
+    pub fn set(ms: Option<u64>) {
+        OVERRIDE.with(|c| c.set(ms));
+    }
+
+    pub fn get() -> Option<u64> {
+        OVERRIDE.with(|c| c.get())
+    }
 }
